@@ -225,21 +225,69 @@ def rule_login(ctx):
                           f"the connection is made with {a} instead of the requested database and schema")
 
 
+class ErrorHooks(ServerHooks):
+    """the statement fails with a ProgrammingError carrying symbolic errno / sqlstate / msg"""
+
+    def external(self, I, d, args, kwargs, site):
+        if d.endswith("run_in_threadpool"):
+            from ..interp import _Raise
+            exc = ExcV("snowflake.connector.errors.ProgrammingError",
+                       {"errno": Sym("ERRNO", typ="int", truthy=True), "sqlstate": Sym("SQLSTATE", typ="str", truthy=True), "msg": Sym("MSG", typ="str", truthy=True)})
+            raise _Raise(exc)
+        return super().external(I, d, args, kwargs, site)
+
+
+def _find(v, pred, seen=None, depth=0):
+    from ..values import Lst, Tup
+    seen = seen if seen is not None else set()
+    if id(v) in seen or depth > 8:
+        return None
+    seen.add(id(v))
+    if pred(v):
+        return v
+    kids = []
+    if isinstance(v, Dct):
+        kids = list(v.items.values())
+    elif isinstance(v, (Lst, Tup)):
+        kids = v.items
+    elif isinstance(v, Str):
+        kids = [p for p in v.parts if not isinstance(p, str)]
+    for k in kids:
+        r = _find(k, pred, seen, depth + 1)
+        if r is not None:
+            return r
+    return None
+
+
 def rule_error_fields(ctx):
+    """C17.c: the response to a failing statement carries errno as a 6-digit code, the error's sqlstate and its message."""
     prog = ctx.prog
     m = prog.mod("server")
     fn = prog.fn("server", "query_request")
-    handlers = [h for h in ast.walk(fn) if isinstance(h, ast.ExceptHandler) and h.type is not None and "ProgrammingError" in norm(h.type)]
-    ok = False
-    for h in handlers:
-        src = norm(h)
-        ok = (":06d" in src and f"{h.name}.errno" in src and f"{h.name}.sqlstate" in src and f"{h.name}.msg" in src
-              and "'sqlState'" in src and "'message'" in src and "'success': False" in src)
-    ctx.ob("C17.c", "error response carries errno (6 digits), sqlstate and message of the caught error", ok, m.loc(fn))
-    if not ok:
-        ctx.violation("C17.c", "server", "query_request", "error response fields", m.loc(fn),
-                      "the error response does not carry the caught error's errno as a 6-digit code, its sqlstate and its message: the "
-                      "connector would raise a different error than the in-process fake")
+    loc = m.loc(fn)
+
+    def run(I):
+        req = Obj("request", kind="request", headers=Obj("headers", kind="headers"))
+        return I.call(I.global_lookup("server", "query_request"), [req], {}, None)
+
+    n = 0
+    for p in explore(prog, lambda: ErrorHooks("ok"), run, max_paths=32):
+        n += 1
+        resp = p.value if p.outcome == "return" and isinstance(p.value, Obj) else None
+        body = resp.attrs.get("body") if resp is not None else None
+        code = _find(body, lambda v: isinstance(v, Sym) and v.origin and v.origin[0] == "format" and v.origin[2] in ("06d", "06") and tagof(v.origin[1]) == "ERRNO") if body is not None else None
+        state = _find(body, lambda v: isinstance(v, Sym) and v.tag == "SQLSTATE") if body is not None else None
+        msg = _find(body, lambda v: isinstance(v, Sym) and v.tag == "MSG") if body is not None else None
+        success = body.items.get("success") if isinstance(body, Dct) else None
+        ok = code is not None and state is not None and msg is not None and isinstance(success, Const) and success.v is False
+        missing = [w for w, x in (("errno as a 6-digit code", code), ("sqlstate", state), ("message", msg)) if x is None]
+        ctx.ob("C17.c", "error response carries errno (6 digits), sqlstate and message of the caught error, success false", ok, loc, str(missing))
+        if not ok:
+            what = f"raises {p.value.cls}" if p.outcome == "raise" else f"lacks {missing or 'success: false'}"
+            ctx.violation("C17.c", "server", "query_request", "error response fields", loc,
+                          f"when the statement fails with a ProgrammingError the response {what}: the connector would raise a different error "
+                          f"(errno / sqlstate / message) than the in-process fake")
+    ctx.floor("C17.c error paths", n, 1)
 
 
 FLOAT_FUNCS = {"subsecond", "divide_float"}
@@ -343,8 +391,9 @@ def rule_wire_units(ctx):
         return any(isinstance(a, ast.Constant) and a.value == value for a in ast.walk(call))
 
     def fields(fn):
+        # field definitions may live in a shared helper: collect them module-wide
         out = set()
-        for c in calls(fn, "field"):
+        for c in calls(m.tree, "field"):
             name = next((a.value for a in c.args if isinstance(a, ast.Constant) and isinstance(a.value, str)), None)
             typ = next((norm(k.value) for k in c.keywords if k.arg == "type"), norm(c.args[1]) if len(c.args) > 1 else "")
             out.add((name, typ.replace("pa.", "").replace("()", "")))
@@ -368,7 +417,7 @@ def rule_wire_units(ctx):
                        any(has_const(c, 1_000_000_000) and "subsecond" in norm(c) for c in calls(f, "multiply"))))
         fs = fields(f)
         checks.append(("timestamp_to_sf_struct", "struct fields epoch:int64, fraction:int32, timezone:int32 with 1440 (UTC offset + 1440)",
-                       {("epoch", "int64"), ("fraction", "int32"), ("timezone", "int32")} <= fs and any(isinstance(c, ast.Constant) and c.value == 1440 for c in ast.walk(f))))
+                       {("epoch", "int64"), ("fraction", "int32"), ("timezone", "int32")} <= fs and any(isinstance(c, ast.Constant) and c.value == 1440 for c in ast.walk(m.tree))))
     if "to_sf_schema" in m.functions:
         f = m.functions["to_sf_schema"]
         checks.append(("to_sf_schema", "field metadata defaults: precision 38, scale 0", default_of(f, "precision") == 38 and default_of(f, "scale") == 0))
